@@ -244,13 +244,30 @@ def random_generic_file(rng):
     f = []
     for _ in range(rng.randint(0, 3)):
         f += [ln for ln in random_lines(rng, 1) if ln['k'] in ('comm', 'pre', 'blank')]
-    names = rng.sample(SECS, rng.randint(1, 4))
+    # the sections a topology may carry, in any order: [ defaults ] / [ atomtypes ] before [ moleculetype ], [ moleculetype ]
+    # and [ atoms ] in the middle or at the end
+    names = rng.sample(SECS + ['defaults', 'atomtypes', 'moleculetype', 'atoms', 'system', 'molecules'], rng.randint(1, 5))
     order = [rng.choice(names) for _ in range(rng.randint(1, 7))]      # repeats happen
     for nm in order:
         f.append({'k': 'sec', 't': [nm], 'c': []})
         lines = random_lines(rng, rng.randint(0, 6))
+        if nm in ('moleculetype', 'atoms'):
+            # sections whose content lines the library parses into fields: well-formed content, free comments around it
+            typed = []
+            for ln in lines:
+                if ln['k'] != 'cont':
+                    typed.append(ln)
+                elif nm == 'moleculetype':
+                    typed.append(dict(ln, t=[rng.choice(['MOL', 'LIG_A', 'X1']), rng.choice(['1', '3'])]))
+                else:
+                    i = str(rng.randint(1, 99))
+                    typed.append(dict(ln, t=[i, rng.choice(['C', 'P4', 'opls_135']), rng.choice(['1', '2', '77']), 'RES',
+                                             'A' + i, i, rng.choice(['0.0', '-0.25', '1']), rng.choice(['12.011', '72'])][:rng.choice([7, 8])]))
+            lines = typed
         for ln in lines:
-            if ln['k'] == 'pre' and rng.random() < 0.4:
+            # (an indented directive inside [ atoms ] / [ moleculetype ] is parsed as a content line of that section and
+            # raises ValueError / IndexError: DESIGN 5, observation O3 - not generated)
+            if ln['k'] == 'pre' and rng.random() < 0.4 and nm not in ('moleculetype', 'atoms'):
                 ln['indent'] = True
         f += lines
     return f
@@ -307,7 +324,8 @@ def random_topology(rng, n, graph_kind):
         f.append({'k': 'pre', 't': ['#include', '"forcefield.itp"'], 'c': []})
     f.append({'k': 'sec', 't': ['moleculetype'], 'c': []})
     f.append({'k': 'comm', 't': [], 'c': [['name', 'nrexcl']]})
-    f.append({'k': 'cont', 't': [rng.choice(['MOL', 'BMIM', 'X1', 'LIG_A']), '1'], 'c': []})
+    f.append({'k': 'cont', 't': [rng.choice(['MOL', 'BMIM', 'X1', 'LIG_A']), rng.choice(['1', '3'])],
+              'c': [] if rng.random() < 0.6 else [[rng.choice(WORDS)]]})          # a trailing comment, glued or not
     f.append({'k': 'blank', 't': [], 'c': []})
     f.append({'k': 'sec', 't': ['atoms'], 'c': []})
     resid = rng.choice([1, 1, 1, 7, 99998, 100000, 123456])      # residue numbers are not limited to five digits in a topology
